@@ -91,6 +91,10 @@ func LdRead(r io.Reader, zeroLenAsEOF bool, maxReadBytes uint64) ([]byte, error)
 
 	buf := make([]byte, l)
 	if _, err := io.ReadFull(r, buf); err != nil {
+		if err == io.EOF {
+			// The length prefix promised l bytes; running dry here is a truncation, not a clean end.
+			err = io.ErrUnexpectedEOF
+		}
 		return nil, err
 	}
 
